@@ -1,6 +1,8 @@
 (* C19 - Listeners are told of every structural change before it happens. Property theorems only. *)
-From Coq Require Import List.
-From SV Require Import Base.Base IR.State IR.NS IR.Ops Proofs.Refused.
+From Coq Require Import List NArith.
+From SV Require Import Base.Base IR.State IR.NS IR.Ops IR.Shadow Proofs.Refused Proofs.InvW Proofs.Fresh
+  Proofs.C01_full Proofs.Mirror.
+Import ListNotations.
 
 (* no phantom announcements: a refused non-allocating call appends nothing to the announcement
    log (the log is a field of the state, so this is the log component of C14's theorem) *)
@@ -8,3 +10,32 @@ Theorem C19_no_phantom : forall s o,
   plain_op o = true -> refusal (step s o) -> log (fst (step s o)) = log s.
 Proof. intros s o H1 H2. rewrite (refused_changes_nothing s o H1 H2). reflexivity. Qed.
 Print Assumptions C19_no_phantom.
+
+(* the mirror clause, one call: a listener (IR/Shadow.v: feed) that holds an exact mirror of
+   containment, wire membership, instance references, top instances and element data before a
+   call - any public editing call, accepted or refused, single, bulk or compound, including the
+   implicit disconnections of port/pin removal and reference = None and the implicit re-keying of
+   re-pointing - and that replays exactly the announcements made during the call, holds an exact
+   mirror afterwards. (Announcements carry no positions: containers and wires are mirrored as sets.) *)
+Theorem C19_mirror_step : forall s o sh,
+  Inv s -> Fresh s -> mirror s sh ->
+  mirror (fst (step s o)) (feed_all s sh (new_events s (fst (step s o)))).
+Proof. exact step_mirror. Qed.
+Print Assumptions C19_mirror_step.
+
+(* every history from the empty world: the listener that started with the empty mirror and replayed
+   the announcements of each call holds an exact mirror of the state reached *)
+Theorem C19_mirror : forall ops,
+  fst (run_mirror ops init sh_init) = run ops init /\
+  mirror (run ops init) (snd (run_mirror ops init sh_init)).
+Proof.
+  intro ops. destruct (run_mirror_spec ops init sh_init inv_init fresh_init mirror_init) as [E M].
+  split; [exact E|rewrite <- E; exact M].
+Qed.
+Print Assumptions C19_mirror.
+
+(* non-vacuity: the sample history of C01 (instance, wired outer and inner pin) and what its mirror holds *)
+Example C19_mirror_sample :
+  let sh := snd (run_mirror sample_ops init sh_init) in
+  sw sh 7 (POut 5 2) = true /\ sw sh 7 (PIn 3) = true /\ sr sh 5 = Some 0 /\ sk sh RChildren 4 5 = true /\ sk sh RPins 1 2 = true.
+Proof. vm_compute. repeat split. Qed.
